@@ -792,6 +792,9 @@ class C11(Check):
                 seen.add(d)
             d2 = dict(rc.__dict__)
             d2["recs"] = rev
+            # ... and the in-membership container handed to the second call has some other shape (K x N, N*K x 1, empty,
+            # one row too many): it is neither read nor written, so nothing may depend on it
+            d2["vshape"] = rng.choice([0, 1, 2, 3, 4, 4])
             pairs["o%d" % n] = (rc, RunCase(**d2))
         lines = []
         for cid, (a, b) in pairs.items():
@@ -807,10 +810,20 @@ class C11(Check):
             if not oa or not ob or oa.get("err") != ["0"]:
                 continue
             self.monitor("reversal pairs")
+            if ob.get("err") != ["0"]:
+                self.violate("v-read", "the undirected call depends on the in-membership argument: handed a container of shape #%d "
+                             "(0: NxK, 1: KxN, 2: N*Kx1, 3: empty, 4: (N+1)xK) it fails (error code %s), with an NxK one it runs"
+                             % (b.vshape, ob.get("err")), {"original": a.describe(), "second": b.describe(), "case_a": a.line("a"), "case_b": b.line("b")})
+                continue
+            Nv = len(oa.get("labels", []))
+            vr, vc = {0: (Nv, a.K), 1: (a.K, Nv), 2: (Nv * a.K, 1), 3: (0, 0), 4: (Nv + 1, a.K)}[b.vshape]
+            if ob.get("vdims") != [str(vr), str(vc)] or len(ob.get("v", [])) != vr * vc or any(t != hexf(b.prior) for t in ob.get("v", [])):
+                self.violate("v-touched", "undirected run modified the in-membership argument (shape #%d before the call, dims %s after)"
+                             % (b.vshape, ob.get("vdims")), dict(b.describe(), case=b.line("replay")))
             nrev = sum(1 for x, y in zip(a.recs, b.recs) if x != y)
             if nrev:
                 self.nontrivial((a.variant(), str(a.recs), str(b.recs), a.seed))
-            diff = [x for x in NUMERIC_KEYS + ["labels"] if oa.get(x) != ob.get(x)]
+            diff = [x for x in NUMERIC_KEYS + ["labels"] if x != "v" and oa.get(x) != ob.get(x)]
             if ion.get(cid + "na") != ion.get(cid + "nb"):
                 diff.append("network")
             self.sample({"variant": a.variant(), "records": a.recs[:5], "reversed": b.recs[:5], "identical": not diff})
